@@ -26,6 +26,7 @@ type schedScenario struct {
 	quick, thor int // preemption bounds; -1 = unbounded; -2 = skip in that tier
 	body        func()
 	oracle      Oracle
+	setup       func() // runs once, outside any exploration, before the scenario is explored
 }
 
 type seqScenario struct {
@@ -52,7 +53,14 @@ func New(property string) *H { return &H{Property: property} }
 // Sched registers a schedule-exploration scenario with its preemption bounds for
 // the quick and thorough tiers (-1 = unbounded, -2 = not run in that tier).
 func (h *H) Sched(name string, quick, thorough int, body func(), oracle Oracle) {
-	h.sched = append(h.sched, schedScenario{name, quick, thorough, body, oracle})
+	h.sched = append(h.sched, schedScenario{name, quick, thorough, body, oracle, nil})
+	h.order = append(h.order, "sched:"+name)
+}
+
+// SchedWithSetup is Sched plus a setup function that runs once, free-running (outside
+// any exploration), right before the scenario is explored or replayed.
+func (h *H) SchedWithSetup(name string, quick, thorough int, setup func(), body func(), oracle Oracle) {
+	h.sched = append(h.sched, schedScenario{name, quick, thorough, body, oracle, setup})
 	h.order = append(h.order, "sched:"+name)
 }
 
@@ -205,6 +213,9 @@ func (h *H) runSched(sc schedScenario, dl time.Time) *ScenarioReport {
 	}
 	r := &ScenarioReport{Name: sc.name, Kind: "sched", BoundTarget: target, BoundCompleted: -3}
 	t0 := time.Now()
+	if sc.setup != nil {
+		sc.setup()
+	}
 	bounds := []int{}
 	if target < 0 {
 		bounds = []int{-1}
@@ -383,6 +394,9 @@ func (h *H) replay(file string) int {
 		for _, sc := range h.sched {
 			if sc.name != rf.Scenario {
 				continue
+			}
+			if sc.setup != nil {
+				sc.setup()
 			}
 			x := verifrt.Replay(rf.Choices, sc.body)
 			v := sc.oracle(x)
